@@ -73,7 +73,14 @@ def run(ctx):
     ctx.proof_step(PROPS_FILE)
     n = 30 if ctx.tier == "quick" else 400
     from vlib.pairwise import pairwise
-    sysm = systematic() + [r for _, r in pairwise(only={"format", "enum", "default"})]
+    from vlib.valuecheck import collide_root
+    # types with one Go name and different JSON types (a declaration may be shared only between equal schemas): inline, and as definitions A, B, B'
+    coll = [collide_root({"type": "string"}, {"type": "integer"}), collide_root({"type": "integer"}, {"type": "boolean"}, required=True),
+            collide_root({"type": "array", "items": {"type": "string"}}, {"type": "array", "items": {"type": "number"}}, key="l")]
+    ox = lambda t: {"type": "object", "properties": {"x": {"type": t}}}      # noqa: E731
+    for names, tys in ((["FooBar", "Foo_bar", "foo-bar"], ["string", "integer", "integer"]), (["a_b", "aB", "AB", "a-b"], ["boolean", "string", "string", "boolean"])):
+        coll.append({"type": "object", "$defs": {n: ox(t) for n, t in zip(names, tys)}, "properties": {"p%d" % i: {"$ref": "#/$defs/" + n} for i, n in enumerate(names)}})
+    sysm = systematic() + [r for _, r in pairwise(only={"format", "enum", "default"})] + coll
     cases = build_cases(ctx, len(sysm) + n, None, CLASSES | {"null-not-allowed"}, "c03x", extra_schemas=sysm, docs_per=2 if ctx.tier == "quick" else 3)
     # the integer positions again under --min-sized-ints (another Go type for the same schema)
     from vlib.pairwise import sized_enum
